@@ -23,6 +23,7 @@ func init() {
 			ruleC13F3(r)
 			ruleC13F4(r)
 			ruleC13F5(r)
+			rulePoolReset(r, "F6")
 		},
 	})
 }
